@@ -15,7 +15,7 @@ def digest_int(vals):
 
 def make_file(path, rng, kind):
     """kind: 'regular' | 'irregular' | '2d'.  Returns dict describing the file for the model request."""
-    if kind == '2d':
+    if kind in ('2d', '2d-const'):
         n = (1, int(rng.integers(3, 12)), 8)
         lay = spec.Layout(n, (1, 16, 512), 16, is2d=True)
         grid = n[1]
@@ -32,13 +32,15 @@ def make_file(path, rng, kind):
     stored = sorted(set([189, 193] + [int(c) for c in rng.choice([1, 5, 9, 21, 73, 77, 181, 185], size=int(rng.integers(0, 4)), replace=False)]))
     if kind == '2d':
         stored = sorted(set(int(c) for c in rng.choice([1, 5, 9, 21, 73, 77, 181, 185], size=int(rng.integers(1, 4)), replace=False)))
+    if kind == '2d-const':
+        stored = []          # every header field constant: no footer array at all
     arrays = {}
     for k, code in enumerate(stored):
         a = (k + 1) * 1000000 + np.arange(grid) + 1
         a[holes] = 0
         arrays[code] = a
     consts = {115: 8, 117: 4000}
-    dups = {197: stored[0]} if rng.random() < .5 and 197 not in stored else {}
+    dups = {197: stored[0]} if stored and rng.random() < .5 and 197 not in stored else {}
     spec.build_file(path, lay, spec.version_encode(0, 2, 9, True), il=(5, 1), xl=(7, 1), z=(0, 4000), arrays=arrays, consts=consts,
                     dups=dups, tracecount=grid - len(holes))
     h, _ = spec.read_header(path)
@@ -51,7 +53,7 @@ def make_file(path, rng, kind):
         else:
             rows.append(f'{consts.get(code, 0)}:0')
     return dict(kind=kind, grid=grid, holes=holes, stored=stored, dups=dups, rows=rows, footer=h.footer_offset(0), stride=h.stride,
-                len=h.array_bytes, is3d=kind != '2d', structured=(kind == 'regular'), n=n)
+                len=h.array_bytes, is3d=kind not in ('2d', '2d-const'), structured=(kind == 'regular'), n=n)
 
 
 def io_problems(fd, op, log):
@@ -104,6 +106,12 @@ def enumerate_short_histories(ctx, model, path, fd, desc, depth):
     """every history  a [b] target  over a small alphabet of header operations (both padding modes, one-field loads,
     tracefield reads, clear) on one file: the directed part of the search for a failing input"""
     T = fd['grid'] - len(fd['holes'])
+    if not fd['stored']:
+        for ops in ([('hdr', 0), ('hdr', T - 1), ('hdr', T), ('hdr', T + 5), ('hdrall', T), ('tfv', 1)],
+                    [('rvh', True), ('hdr', T), ('hdr', 0)], [('clear',), ('hdr', T + 1)]):
+            run_history(ctx, model, path, fd, ops, dict(desc, directed=True))
+        ctx.stats['directed_header_histories'] += 3
+        return
     f0 = fd['stored'][0]
     alpha = [None, ('rvh', False), ('rvh', True), ('rvh1', False, f0), ('rvh1', True, fd['stored'][-1]), ('tfv', f0),
              ('hdr', 0), ('hdrall', max(T - 1, 0)), ('clear',)]
